@@ -25,7 +25,7 @@ class Contract:
                  raises_unchanged=True, frame=None, pure=False, returns=None, loops=(), total=True,
                  props=(), hooks=None, locals=None, defaults=None, is_property=False,
                  uf_params=None, assumed=False, note="", ghost=None, exc_props=None,
-                 stop_ensures=(), bounded=(), globals=None):
+                 stop_ensures=(), bounded=(), globals=None, hints=None):
         self.name = name
         self.short = name.split(".")[-1]
         self.params = OrderedDict(params)     # name -> type descriptor
@@ -52,6 +52,9 @@ class Contract:
         self.stop_ensures = list(stop_ensures)
         self.bounded = list(bounded)
         self.globals = dict(globals or {})   # module-level names the function reads -> expression
+        # cut lemmas: after an assignment to <name>, prove (then use) these facts: splits one hard
+        # obligation into small ones; they are obligations, never assumptions
+        self.hints = dict(hints or {})
 
     def default_value(self, nm, engine):
         from .engine import State
@@ -99,6 +102,7 @@ class Registry:
         self._ghost = {}
         self._ghost_trees = {}
         self.aliases = {}
+        self.arith_lemmas = {}
         self.z3_definitions = {}     # spec function -> [(label, formula)]: definitional axioms
         self.z3_lemmas = {}          # spec function -> [(label, formula)]: proved by induction
 
@@ -132,6 +136,11 @@ class Registry:
             else:
                 c.uf = z3.Function(base, *(sorts + [self.sort_of(c.returns)]))
         return c
+
+    def arith_lemma(self, name, params, hyps, concl, props=()):
+        """A universally quantified arithmetic fact, proved on its own (small, stable query) by
+        pyvc.lemmas on every run and instantiated at hint sites with `("use", name, [args])`."""
+        self.arith_lemmas[name] = (list(params), hyps, concl, tuple(props))
 
     def alias(self, simple, contract_name):
         self.aliases[simple] = contract_name
@@ -274,6 +283,15 @@ class Registry:
             ("CNT.lemma.all", z3.ForAll([a, k, v], z3.Implies(
                 z3.And(k >= 0, z3.ForAll([i], z3.Implies(z3.And(0 <= i, i < k), z3.Select(a, i) == v))),
                 CNT(a, k, v) == k))),
+        ]
+        v2 = z3.Int("v2")
+        lemmas += [
+            ("CNT.lemma.positive", z3.ForAll([a, k, v, i], z3.Implies(
+                z3.And(0 <= i, i < k, z3.Select(a, i) == v), CNT(a, k, v) >= 1))),
+            ("CNT.lemma.partition", z3.ForAll([a, k, v, v2], z3.Implies(
+                z3.And(k >= 0, v != v2, z3.ForAll([i], z3.Implies(
+                    z3.And(0 <= i, i < k), z3.Or(z3.Select(a, i) == v, z3.Select(a, i) == v2)))),
+                CNT(a, k, v) + CNT(a, k, v2) == k))),
         ]
         self.z3_definitions["CNT"] = defs
         self.z3_lemmas["CNT"] = lemmas
